@@ -138,7 +138,7 @@ func goxScenarios() []goxScenario {
 		{Name: "replace", Files: files, SQL: "REPLACE INTO t (a, g, b) USING (a) VALUES (2, 'r', 0), (30, 'n1', 1), (31, 'n2', 2), (32, 'n3', 3); SELECT * FROM t; COMMIT;", CPU: 3},
 		{Name: "replace-1-new", Files: files, SQL: "REPLACE INTO t (a, g, b) USING (a) VALUES (2, 'r', 0), (5, 's', 9), (30, 'n1', 1); SELECT * FROM t; COMMIT;", CPU: 3},
 		{Name: "create-2-update-1", Files: files, SQL: "CREATE TABLE `n1.csv` (c1); CREATE TABLE `n2.csv` (c1); INSERT INTO n1 VALUES (1); UPDATE t SET b = 0; UPDATE u SET c = 0; COMMIT;", CPU: 3},
-		{Name: "ltsv-json-load", Files: map[string]string{"l.ltsv": "a:1\tb:2\na:3\nb:4\ta:5\nc:6\n", "j.jsonl": "{\"a\":1}\n{\"b\":2,\"a\":3}\n{\"c\":4}\n{\"a\":5}\n"}, SQL: "SELECT * FROM l; SELECT * FROM j;", CPU: 3},
+		{Name: "ltsv-json-load", Loop: true, Files: map[string]string{"l.ltsv": "a:1\tb:2\na:3\nb:4\ta:5\nc:6\n", "j.jsonl": "{\"a\":1}\n{\"b\":2,\"a\":3}\n{\"c\":4}\n{\"a\":5}\n"}, SQL: "SELECT * FROM l; SELECT * FROM j;", CPU: 3},
 	}
 	return sc
 }
@@ -267,7 +267,9 @@ func c12Pass(c *core.Ctx, maxP, maxD, maxS int, tag string) {
 		if only := os.Getenv("VERIF_C12_ONLY"); only != "" && only != sc.Name {
 			continue
 		}
-		gox.LoopPoints = gox.EvalPoints && (sc.Loop || c.Thorough())
+		// loop iterations of lib/query are scheduling points as well; the quick tier leaves them out for the one scenario that
+		// makes two thirds of all executions
+		gox.LoopPoints = gox.EvalPoints && (c.Thorough() || sc.Name != "user-aggregate-with-row-argument-over-partitions")
 		want, _ := goxRunOnce(dir, sc, 1, false, nil)
 		outcomes := map[string]int{}
 		e := &gox.Explorer{MaxPreempt: maxP, MaxMapDev: maxD, MaxSwitch: maxS, Stop: c.Expired}
